@@ -1,5 +1,5 @@
 (* Props/C08.v — property C08: symmetry under class swap, direction reversal and rescaling. Statements only. *)
-From SA Require Import Model.Symmetry Proofs.SymmetryFacts.
+From SA Require Import Model.Symmetry Model.Threshold Proofs.SymmetryFacts Proofs.InvIncrFacts Proofs.EquivarianceFacts.
 Open Scope Q_scope.
 
 (* swap() exchanges the roles of the classes exactly: at EVERY threshold (incl. +-inf), for all score
@@ -36,10 +36,22 @@ Theorem C08_affine_cm : forall (a b : Q) (s : scores) (t : ext), 0 < a ->
 Proof. exact affine_cm. Qed.
 Print Assumptions C08_affine_cm.
 
-(* _partial: equivariance of the thresholds returned by threshold setting and EER, and invariance of
-   EER/AUC values, are not theorems here. In exact arithmetic the mirrored threshold can differ from the
-   negated one by the sentinel/last-sample convention (one ulp; the property grants "a few ulp"), so they
-   are checked on the implementation by harness/props/C08.py with that tolerance on every run. *)
+(* thresholds under an increasing affine map, _partial: for every list of scores, target, metric
+   direction (increasing / ratio_class), configuration and method, the threshold returned by
+   _threshold_at_ratio for the mapped scores is the mapped threshold — whenever the (normalised)
+   target is interior, i.e. not answered by a one-ulp sentinel.  At a sentinel exact equivariance is
+   false in binary64 (nextafter(a*x+b) <> a*nextafter(x)+b); there, and for negation (where the mirrored
+   threshold can differ by the sentinel / last-sample convention), for EER thresholds and for the
+   invariance of EER and AUC values, the statement is checked on the implementation by
+   harness/props/C08.py within the few ulp the property grants. *)
+Theorem C08_affine_thresholds_interior_partial :
+  forall (succ pred : Q -> Q) (a b : Q) (s s' : scores) (l : list Q) (u : Q) (inc : bool) (rc : label) (m : method),
+  score_class s' = score_class s -> equal_class s' = equal_class s -> (1 <= len l)%Z ->
+  interior l (tar_target s inc u) (tar_lc s rc) ->
+  threshold_at_ratio succ pred s' (map (fun x => a * x + b) l) u inc rc m
+  == a * threshold_at_ratio succ pred s l u inc rc m + b.
+Proof. exact tar_affine_interior. Qed.
+Print Assumptions C08_affine_thresholds_interior_partial.
 
 Example C08_example :
   cm (swap (mk_scores [1#1; 3#1] [2#1] 1 0 Pos Neg false)) (Fin (2#1)) = mkCmz 1 0 1 2.
